@@ -14,12 +14,17 @@ import (
 	"os/exec"
 	"strconv"
 	"strings"
+	"syscall"
 	"time"
 )
 
 type symv struct {
 	sort byte // 'B', 'S', 'I'
 	term string
+	// fromInt: for a String term that is the decimal rendering of this Int
+	// term (fmt %d/%v, strconv.Itoa). Rendering is injective, so equalities
+	// between such strings are decided on the integers.
+	fromInt string
 }
 
 // symbytes is the []byte view of a symbolic string (result of []byte(s) or of
@@ -93,7 +98,7 @@ func mkBool(t string) value {
 	case "false":
 		return false
 	}
-	return symv{'B', t}
+	return symv{sort: 'B', term: t}
 }
 
 func andv(a, b value) value {
@@ -109,7 +114,7 @@ func andv(a, b value) value {
 		}
 		return a
 	}
-	return symv{'B', "(and " + a.(symv).term + " " + b.(symv).term + ")"}
+	return symv{sort: 'B', term: "(and " + a.(symv).term + " " + b.(symv).term + ")"}
 }
 
 func orv(a, b value) value {
@@ -125,7 +130,7 @@ func orv(a, b value) value {
 		}
 		return a
 	}
-	return symv{'B', "(or " + a.(symv).term + " " + b.(symv).term + ")"}
+	return symv{sort: 'B', term: "(or " + a.(symv).term + " " + b.(symv).term + ")"}
 }
 
 func notv(a value) value {
@@ -134,9 +139,9 @@ func notv(a value) value {
 	}
 	t := a.(symv).term
 	if strings.HasPrefix(t, "(not ") && balanced(t[5:len(t)-1]) {
-		return symv{'B', t[5 : len(t)-1]}
+		return symv{sort: 'B', term: t[5 : len(t)-1]}
 	}
-	return symv{'B', "(not " + t + ")"}
+	return symv{sort: 'B', term: "(not " + t + ")"}
 }
 
 func balanced(s string) bool {
@@ -175,6 +180,9 @@ func balanced(s string) bool {
 // eqv: sym-aware equality; falls back to the interpreter's equals.
 func eqv(t types.Type, x, y value) value {
 	if isSym(x) || isSym(y) {
+		if r, ok := eqFromInt(x, y); ok {
+			return r
+		}
 		tx, sx, okx := termOf(x)
 		ty, sy, oky := termOf(y)
 		if !okx || !oky || sx != sy {
@@ -183,7 +191,7 @@ func eqv(t types.Type, x, y value) value {
 		if tx == ty {
 			return true
 		}
-		return symv{'B', "(= " + tx + " " + ty + ")"}
+		return symv{sort: 'B', term: "(= " + tx + " " + ty + ")"}
 	}
 	switch xx := x.(type) {
 	case iface:
@@ -257,6 +265,7 @@ func SolverArgv(name string, timeoutMs int) []string {
 func NewSolver(name string, timeoutMs int, log io.Writer) *Solver {
 	argv := SolverArgv(name, timeoutMs)
 	cmd := exec.Command(argv[0], argv[1:]...)
+	cmd.SysProcAttr = &syscall.SysProcAttr{Pdeathsig: syscall.SIGKILL}
 	in, _ := cmd.StdinPipe()
 	out, _ := cmd.StdoutPipe()
 	if err := cmd.Start(); err != nil {
@@ -484,4 +493,38 @@ func DecodeSMTInt(lit string) (int64, bool) {
 		n = -n
 	}
 	return n, true
+}
+
+// eqFromInt decides equality of decimal renderings on the integers.
+func eqFromInt(x, y value) (value, bool) {
+	sx, okx := x.(symv)
+	sy, oky := y.(symv)
+	if okx && oky && sx.fromInt != "" && sy.fromInt != "" {
+		if sx.fromInt == sy.fromInt {
+			return true, true
+		}
+		return symv{sort: 'B', term: "(= " + sx.fromInt + " " + sy.fromInt + ")"}, true
+	}
+	lit := func(s symv, c value) (value, bool) {
+		cs, ok := c.(string)
+		if !ok || s.fromInt == "" {
+			return nil, false
+		}
+		n, err := strconv.ParseInt(cs, 10, 64)
+		if err != nil || strconv.FormatInt(n, 10) != cs {
+			return false, true
+		}
+		return symv{sort: 'B', term: "(= " + s.fromInt + " " + smtInt(n) + ")"}, true
+	}
+	if okx {
+		if r, ok := lit(sx, y); ok {
+			return r, true
+		}
+	}
+	if oky {
+		if r, ok := lit(sy, x); ok {
+			return r, true
+		}
+	}
+	return nil, false
 }
